@@ -62,6 +62,13 @@ mod scalar_feat {
     use ::glam_scalar_feat as glam;
     include!("suite.rs");
 }
+/// the feature-enabled SSE2 build with `glam-assert`: no feature impl may gain a precondition (half the volume)
+mod feat_assert {
+    pub const VARIANT: &str = "feat+glam-assert";
+    macro_rules! simd_only { ($($t:tt)*) => { $($t)* }; }
+    use ::glam_feat_assert as glam;
+    include!("suite.rs");
+}
 #[cfg(feature = "core")]
 mod core_feat {
     pub const VARIANT: &str = "core_feat";
@@ -152,6 +159,7 @@ fn main() {
     {
         subs.extend(feat::subs(&args));
         subs.extend(scalar_feat::subs(&args));
+        subs.extend(feat_assert::subs(&args).into_iter().map(|s| s.with_div(2)));
         cross_subs(&mut subs, "feat", feat::observe, "scalar_feat", scalar_feat::observe, feat::infos());
     }
     #[cfg(feature = "core")]
